@@ -177,6 +177,10 @@ func (e *Env) ident(name string) Val {
 	if v, ok := e.bound[name]; ok {
 		return v
 	}
+	if l, ok := e.lets[name]; ok {
+		// names introduced by the contract take precedence over locals of the code
+		return e.tr(l)
+	}
 	if c, ok := e.cellVars[name]; ok {
 		return g.load(e.state(), &Addr{Cell: c}, c.goT)
 	}
